@@ -295,6 +295,8 @@ def run(ctx: Context) -> None:
         _g5(ctx)
     if ck.rule("C10.G6", "no attempt after close / shutdown"):
         _g6(ctx)
+    if ck.rule("C10.G7", "a deliberately dropped connection does not restart the connector"):
+        _g7(ctx)
 
 
 # ---------------------------------------------------------------------- G1
@@ -1386,6 +1388,32 @@ def _g6(ctx: Context) -> None:
 
 
 # ---------------------------------------------------------------------- thorough tier: package-wide sweeps
+def _g7(ctx: Context) -> None:
+    """No feedback from a deliberate drop: _drop_transport() clears the protocol reference before the transport's
+    connection_lost callback runs, so the callback may reach _connection_lost() -> _start_connector() only under the strict
+    identity test `connection.protocol is self`.  Otherwise every failed attempt (and the final AuthenticationError, after
+    which the connector has ended) restarts the connector at once: retries never end and there is no back-off."""
+    from .c11 import _identity_gate_edges
+
+    ck = ctx.ck
+    T = ctx.terms
+    pf = ctx.func("aiohomekit.controller.ip.connection.InsecureHomeKitProtocol.connection_lost")
+    pcfg = ctx.cfg(pf.qualname)
+    calls = [(n, c) for n, c in ctx.nodes_calling_name(pcfg, "_connection_lost")]
+    if not calls:
+        ck.unknown("C10.G7", "connection_lost no longer informs the connection", pf.loc())
+        return
+    gate = _identity_gate_edges(ctx, pcfg, [("param", "self"), ("attr", ("param", "self"), "transport")])
+    for n, _c in calls:
+        ctx.must_pass("C10.G7", pcfg, n, "connection.protocol is self [identity outcome]", gate,
+                      desc="connection_lost reaches _connection_lost (and with it _start_connector) only for the connection's current protocol")
+    # and _drop_transport really clears the reference (so a dropped connection fails that test)
+    df = ctx.func(f"{HC}._drop_transport")
+    cleared = any(isinstance(x, ast.Assign) and any(isinstance(t, ast.Attribute) and t.attr == "protocol" for t in x.targets) and isinstance(x.value, ast.Constant) and x.value.value is None
+                  for x in ast.walk(df.node))
+    ck.check("C10.G7", cleared, "_drop_transport clears the protocol reference", f"{ctx.fkey(df)}:clears-protocol", "_drop_transport no longer clears self.protocol", df.loc())
+
+
 def run_thorough(ctx: Context) -> None:
     """Every site in the package that can start a reconnect, and every writer of the closing flag."""
     ck = ctx.ck
@@ -1733,4 +1761,9 @@ VARIANTS = [
         "new": "        if connection.is_connected:\n            return\n",
         "expect": "C10.G6",
     },
+]
+
+VARIANTS += [
+    {"name": "loss of a deliberately dropped connection restarts the connector (endless retries after an authentication failure)",
+     "file": "aiohomekit/controller/ip/connection.py", "old": "        if self.connection.protocol is self:", "new": "        if self.connection.protocol is self or self.connection.protocol is None:", "expect": "C10.G7"},
 ]
